@@ -116,6 +116,100 @@ def _closure_call_target(F, f, t):
         return None
 
 
+
+def _closure_of_local(F, f, operand):
+    """crate closure whose aggregate value the operand holds (single definition), or None"""
+    if operand["k"] == "c":
+        return F.fns.get(operand.get("closure")) if "closure" in operand else None
+    l = operand["pl"]["l"] if not operand["pl"].get("p") else None
+    seen = set()
+    while l is not None and l not in seen:
+        seen.add(l)
+        ds = [d for d in f.defs().get(l, []) if not f.is_cleanup(d[0])]
+        if len(ds) != 1 or ds[0][1] is None:
+            return None
+        rv = ds[0][2]["rv"]
+        if rv["r"] == "agg" and rv["kind"].get("closure") in F.fns:
+            return F.fns[rv["kind"]["closure"]]
+        if rv["r"] in ("use", "cast") and rv["a"][0]["k"] != "c" and not rv["a"][0]["pl"].get("p"):
+            l = rv["a"][0]["pl"]["l"]
+            continue
+        return None
+    return None
+
+
+def _lower_for_each(F, f, raw, blk, t):
+    """`base.map(c0)...for_each(c1)` with crate closures  ->  an explicit loop over `base` that calls the closures (FnMut::call_mut), so that
+    the closure bodies are inlined where they run and the one-body rules see an ordinary loop.  Returns True when the block was rewritten."""
+    if strip_generics(t.get("callee") or "") != "std::iter::Iterator::for_each" or len(t["args"]) != 2 or t["to"] < 0:
+        return False
+    stages = []
+    last = _closure_of_local(F, f, t["args"][1])
+    if last is None or last.path in inventory() or strip_generics(last.path) in inventory():
+        return False
+    stages.append((last, t["args"][1]))
+    base = t["args"][0]
+    for _ in range(4):
+        if base["k"] == "c" or base["pl"].get("p"):
+            break
+        ds = [d for d in f.defs().get(base["pl"]["l"], []) if not f.is_cleanup(d[0])]
+        if len(ds) != 1 or ds[0][1] is not None:
+            break
+        node = ds[0][2]
+        if strip_generics(node.get("callee") or "") != "std::iter::Iterator::map" or len(node["args"]) != 2:
+            break
+        c0 = _closure_of_local(F, f, node["args"][1])
+        if c0 is None or c0.path in inventory() or strip_generics(c0.path) in inventory():
+            return False
+        stages.insert(0, (c0, node["args"][1]))
+        base = node["args"][0]
+    if base["k"] == "c":
+        return False
+    blocks, locals_ = raw["blocks"], raw["locals"]
+
+    def new_local(ty):
+        locals_.append({"i": len(locals_), "t": ty, "adt": ""})
+        return len(locals_) - 1
+    item_ty = stages[0][0].local_ty(2)
+    base_ty = f.local_ty(base["pl"]["l"])
+    it = new_local(base_ty)
+    opt = new_local("std::option::Option<%s>" % item_ty)
+    dsc = new_local("isize")
+    refit = new_local("&mut " + base_ty)
+    ln = t.get("ln")
+    H, A, BODY, EXIT, UNR = len(blocks), len(blocks) + 1, len(blocks) + 2, len(blocks) + 3, len(blocks) + 4
+    first_stage = len(blocks) + 5
+    src = blk.get("src")
+    blocks.append({"b": H, "cleanup": False, "src": src, "st": [{"s": "assign", "lhs": {"l": refit}, "rv": {"r": "ref", "m": "Mut { kind: Default }", "pl": {"l": it}}, "ln": ln, "x": False}],
+                   "term": {"t": "call", "callee": "std::iter::Iterator::next", "resolved": "std::iter::Iterator::next", "foreign": False, "local": False, "krate": "core", "resolved_local": False,
+                            "generics": [base_ty], "args": [{"k": "mv", "pl": {"l": refit}}], "dest": {"l": opt}, "to": A, "unwind": "Continue", "ln": ln, "x": False, "lowered": "for_each"}})
+    blocks.append({"b": A, "cleanup": False, "src": src, "st": [{"s": "assign", "lhs": {"l": dsc}, "rv": {"r": "discr", "pl": {"l": opt}, "adt": "std::option::Option"}, "ln": ln, "x": False}],
+                   "term": {"t": "switch", "on": {"k": "mv", "pl": {"l": dsc}}, "arms": [[0, EXIT], [1, BODY]], "otherwise": UNR, "ln": ln}})
+    v = new_local(item_ty)
+    blocks.append({"b": BODY, "cleanup": False, "src": src,
+                   "st": [{"s": "assign", "lhs": {"l": v}, "rv": {"r": "use", "a": [{"k": "mv", "pl": {"l": opt, "p": [{"v": 1, "n": "Some"}, {"f": 0, "n": "0", "t": item_ty}]}}]}, "ln": ln, "x": False}],
+                   "term": {"t": "goto", "to": first_stage, "ln": ln}})
+    blocks.append({"b": EXIT, "cleanup": False, "src": src, "st": [{"s": "assign", "lhs": copy.deepcopy(t["dest"]), "rv": {"r": "use", "a": [{"k": "c", "t": "()", "s": "()"}]}, "ln": ln, "x": False}],
+                   "term": {"t": "goto", "to": t["to"], "ln": ln}})
+    blocks.append({"b": UNR, "cleanup": False, "src": src, "st": [], "term": {"t": "unreachable"}})
+    for k, (g, cop) in enumerate(stages):
+        nb = len(blocks)
+        res = new_local(g.local_ty(0))
+        tup = new_local("(%s,)" % g.local_ty(2))
+        cref = new_local(g.local_ty(1))
+        nxt = nb + 1 if k + 1 < len(stages) else H
+        blocks.append({"b": nb, "cleanup": False, "src": src,
+                       "st": [{"s": "assign", "lhs": {"l": tup}, "rv": {"r": "agg", "kind": {"tuple": True}, "a": [{"k": "mv", "pl": {"l": v}}]}, "ln": ln, "x": False},
+                              {"s": "assign", "lhs": {"l": cref}, "rv": {"r": "ref", "m": "Mut { kind: Default }", "pl": copy.deepcopy(cop["pl"])}, "ln": ln, "x": False}],
+                       "term": {"t": "call", "callee": "std::ops::FnMut::call_mut", "resolved": "std::ops::FnMut::call_mut", "foreign": False, "local": False, "krate": "core", "resolved_local": False,
+                                "generics": [], "args": [{"k": "mv", "pl": {"l": cref}}, {"k": "mv", "pl": {"l": tup}}], "dest": {"l": res}, "to": nxt, "unwind": "Continue", "ln": ln, "x": False,
+                                "lowered": "for_each"}})
+        v = res
+    blk["st"] = blk["st"] + [{"s": "assign", "lhs": {"l": it}, "rv": {"r": "use", "a": [copy.deepcopy(base)]}, "ln": ln, "x": False}]
+    blk["term"] = {"t": "goto", "to": H, "ln": ln, "lowered": "for_each"}
+    return True
+
+
 def is_anchor(g):
     return any(strip_generics(callee_name(t)) in ANCHOR_SYSCALLS for _, t in g.calls(live_only=False))
 
@@ -260,6 +354,9 @@ def inline_function(F, f, cm, done, depth=0):
                 inlined.append(dg.path)
             continue
         if t["t"] != "call" or blk["cleanup"]:
+            continue
+        if t.get("callee") and "for_each" in t["callee"] and _lower_for_each(F, Fn(raw, F), raw, blk, t):
+            inlined.append("<lowered for_each>")
             continue
         g = _callee_fn(F, t)
         mode = "call"
